@@ -439,7 +439,7 @@ func runC13(c *Ctx) bool {
 	if c.Race {
 		return runC13Concurrent(c)
 	}
-	L := c.Pick(8, 9)
+	L := c.Pick(8, 10)
 	idx := 0
 	// pass 1: text output, length <= L; pass 2: the other operation kinds at smaller L
 	passes := []struct {
